@@ -98,6 +98,8 @@ def err_kind(exc):
             return "moonNever"
         if msg.startswith("Unable to convert degrees"):
             return "cannotConvertDms"
+        if msg.startswith("could not convert string to float"):
+            return "floatParse"
         if ("must be in 0..23" in msg or "must be in 0..59" in msg
                 or "must be in 0..999999" in msg):
             return "timeFieldRange"
